@@ -75,6 +75,18 @@ def fieldTargets (f : FieldView) : List Target :=
   (match f.target with | some t => [t] | none => []) ++
   (match f.entry with | some e => (match e.valueTarget with | some t => [t] | none => []) | none => [])
 
+/-- a class of the wrong kind bound to `message=` / `enum=` (only reachable through a mis-bound bare name) -/
+def kindClash (pkg : List N) (types enums : List (List N)) (d : Decl) (r : RField × Option REntry) : Bool :=
+  let kw := match d with | .field _ _ _ _ _ _ kw => kw | .map _ _ _ _ kw => kw
+  let tn := match r.2 with | some e => e.valueTypeName | none => r.1.typeName
+  match kw, tn with
+  | some k, some full =>
+    if pkg.isPrefixOf full then
+      let path := full.drop pkg.length
+      (decide (path ∈ types)) && (decide (path ∈ enums) != decide (k.key = "enum".toList))
+    else false
+  | _, _ => false
+
 /-- `{"op":"c02.module", …}`: predicted run-time descriptors of one emitted types module -/
 def opModule (j : Json) : Except String Json := do
   let version ← getStrL j "version"
@@ -87,6 +99,7 @@ def opModule (j : Json) : Except String Json := do
     let path ← names mj "path"
     let fields ← (← getArrL mj "fields").mapM (fieldOfJson collisions)
     pure (path, fields)
+  let enums ← (← getArrL j "enums").mapM fun t => do (← t.getArr?).toList.mapM fun v => do pure (← v.getStr?).toList
   let m : Model.Types.Module := ⟨pkg, types, order⟩
   -- names bound by the module's import statements
   let foreign := (msgs.flatMap fun (_, fs) => fs.flatMap fieldTargets).filter fun t =>
@@ -109,7 +122,9 @@ def opModule (j : Json) : Except String Json := do
         | some d =>
           let refText := optJson (fun (r : Ref) => jstr r.text) (declRef d)
           match reconstruct res (pkg ++ path) d with
-          | some r => (Json.mkObj [("ok", rfieldJson r), ("ref", refText)], none, false)
+          | some r =>
+            if kindClash pkg types enums d r then (Json.mkObj [("error", Json.str "KindClash"), ("ref", refText)], some "KindClash", false)
+            else (Json.mkObj [("ok", rfieldJson r), ("ref", refText)], none, false)
           | none =>
             let why := match declRef d with
               | some r => resolvedName (resolveRef m sc r)
